@@ -107,8 +107,17 @@ def malformed_cases(draw, tier="quick"):
         c["actions"] = [[draw(st.sampled_from([lo, hi, 0.25, 0.5])) / 1.0 for _ in range(n)] for _ in c["actions"]]
         c["second_episode"] = False
         c["positive_low"] = True
+    elif c["space"][0] == "box" and c["space_kind"] == "box" and c["cash_pos"] is None and len(c["contracts"]) >= 2 and draw(st.sampled_from([False, True])):
+        # per-contract bounds (array-valued low / high, all containing zero so that delays keep working)
+        n = len(c["contracts"])
+        pool = [(-1.0, 0.5), (0.0, 1.0), (-0.5, 0.0), (-0.25, 0.25), (0.0, 0.5)]
+        picks = draw(st.lists(st.sampled_from(pool), min_size=n, max_size=n).filter(lambda p: len(set(p)) > 1))
+        lows, highs = [p[0] for p in picks], [p[1] for p in picks]
+        c["space"] = ["box", lows, highs, True]
+        c["actions"] = [[draw(st.sampled_from([lows[i], highs[i], 0.0, lows[i] / 2, highs[i] / 2])) for i in range(n)] for _ in c["actions"]]
+        c["per_contract_bounds"] = True
     c["inject_at"] = draw(st.one_of(st.integers(0, max(0, nsteps - 1 - c["delay"])), st.integers(0, nsteps - 1)))
-    c["fault"] = draw(st.sampled_from(BOX_FAULTS if c["space"][0] == "box" else DISCRETE_FAULTS))
+    c["fault"] = draw(st.sampled_from((BOX_FAULTS + ["cross", "cross"] if c.get("per_contract_bounds") else BOX_FAULTS) if c["space"][0] == "box" else DISCRETE_FAULTS))
     c["fault_idx"] = draw(st.integers(0, 5))
     return c
 
@@ -120,7 +129,22 @@ def malformed_action(case):
     idx = case["fault_idx"] % n
     if sp[0] == "box":
         lo, hi = sp[1], sp[2]
-        base = np.full(n, (lo + hi) / 2 if abs(lo) < 1e6 else 0.0)
+        if isinstance(lo, list):
+            # per-contract bounds: the fault is built for entry idx against ITS interval
+            los, his = lo, hi
+            base = np.array([(a + b) / 2 for a, b in zip(los, his)])
+            lo, hi = los[idx], his[idx]
+            if f == "cross":
+                # inside the overall range [min(low), max(high)] but outside this contract's own interval
+                if hi < max(his):
+                    base[idx] = max(his)
+                elif lo > min(los):
+                    base[idx] = min(los)
+                else:
+                    base[idx] = hi + 1.0
+                return base
+        else:
+            base = np.full(n, (lo + hi) / 2 if abs(lo) < 1e6 else 0.0)
         if f == "len-":
             return base[:-1] if n > 1 else np.array([])
         if f == "len+":
@@ -232,6 +256,8 @@ def run_malformed(case):
     res.tag("fault-" + case["fault"], case["space_kind"], "delay=%d" % d)
     if raised_at is not None and raised_at > jm:
         res.tag("rejected-when-due")
+    if case.get("per_contract_bounds"):
+        res.tag("per-contract-bounds")
     if case.get("positive_low"):
         res.tag("bounds-exclude-zero")
     return res
